@@ -646,7 +646,16 @@ def r5_capacity(ctx: Context, rule: str = "C10.R5") -> None:
     ov = [c for c in calls_in(ilp) if call_name(c) == "_overlaps"]
     ok = bool(ov) and not any(isinstance(x, ast.Continue) for x in ast.walk(ilp) if False)
     ctx.check(bool(ov), rule, "ILPScheduler._add_resource_constraints|overlap indicators defined for independent task pairs", loc(ilp), "ok", "overlap indicators are never constrained")
-    # compatibility on an emptied worker
+    r5c_compat_on_cleared_worker(ctx, rule)
+
+
+def r5c_compat_on_cleared_worker(ctx: Context, rule: str = "C10.R5") -> None:
+    """Decision variables exist for every (worker, strategy) pair that fits the EMPTY worker (the capacity constraints,
+    not the variable set, account for what is running): computed on deepcopy(worker), which clears allocations."""
+    if not rule.startswith("C10"):
+        ctx.rule(rule, "model-based planners create placement variables for every (worker, strategy) pair that fits the "
+                       "emptied worker (deepcopy clears allocations); pairs that only fit once a running task has finished "
+                       "stay available to the optimiser")
     for rel in ("schedulers/ilp_scheduler.py", "schedulers/tetrisched_gurobi_scheduler.py", "schedulers/tetrisched_cplex_scheduler.py"):
         init = method(ctx.repo.mod(rel).cls("TaskOptimizerVariables"), "__init__")
         dc = [a for a in ast.walk(init) if isinstance(a, ast.Assign) and isinstance(a.value, ast.Call) and call_name(a.value) == "deepcopy" and norm(a.value.args[0]) == "worker"]
@@ -654,6 +663,8 @@ def r5_capacity(ctx: Context, rule: str = "C10.R5") -> None:
         ok = bool(dc) and bool(cs) and norm(cs[0].func.value) == norm(dc[0].targets[0])
         ctx.check(ok, rule, f"{rel}::TaskOptimizerVariables|compatible (worker, strategy) pairs on deepcopy(worker)", loc(cs[0]) if cs else loc(init),
                   "cleared worker", "compatibility is computed on the occupied worker (tasks that fit later are excluded) or not at all")
+
+
 
 
 def window_cases(pv: ast.FunctionDef) -> Dict[str, Dict[str, lin.Lin]]:
@@ -698,6 +709,101 @@ def indicator_pairs(fn: ast.FunctionDef) -> Dict[str, List[ast.Call]]:
         if len(c.args) >= 5:
             groups.setdefault(norm(c.args[0]) + " :: " + norm(c.args[2]), []).append(c)
     return groups
+
+
+GRID_ROLES = {"current_time": "NOW", "sim_time": "NOW", "plan_ahead": "PA", "time_discretization": "STEP",
+              "self._time_discretization": "STEP"}
+
+
+class _RoleRename(ast.NodeTransformer):
+    def visit_Attribute(self, node):
+        d = dotted(node)
+        if d in GRID_ROLES:
+            return ast.Name(id=GRID_ROLES[d], ctx=ast.Load())
+        return self.generic_visit(node)
+
+    def visit_Name(self, node):
+        return ast.Name(id=GRID_ROLES[node.id], ctx=node.ctx) if node.id in GRID_ROLES else node
+
+
+def _range_args(fn: ast.FunctionDef, call: ast.Call):
+    """(start, stop, step) of a range() call as linear forms over NOW / PA / STEP, single-assignment locals resolved."""
+    counts: Dict[str, int] = {}
+    vals: Dict[str, ast.AST] = {}
+    for n in ast.walk(fn):
+        if isinstance(n, ast.Assign) and len(n.targets) == 1 and isinstance(n.targets[0], ast.Name):
+            counts[n.targets[0].id] = counts.get(n.targets[0].id, 0) + 1
+            vals[n.targets[0].id] = n.value
+        elif isinstance(n, ast.AugAssign) and isinstance(n.target, ast.Name):
+            counts[n.target.id] = counts.get(n.target.id, 0) + 2
+    env: Dict[str, lin.Lin] = {}
+
+    def resolve(node, depth=0):
+        node = _RoleRename().visit(ast.parse(ast.unparse(node), mode="eval").body)
+        for _ in range(4):
+            names = {x.id for x in ast.walk(node) if isinstance(x, ast.Name)}
+            todo = [k for k in names if k in vals and counts.get(k) == 1 and k not in GRID_ROLES.values() and k not in GRID_ROLES]
+            if not todo:
+                break
+            class Sub(ast.NodeTransformer):
+                def visit_Name(self, n):
+                    if n.id in todo:
+                        return _RoleRename().visit(ast.parse(ast.unparse(vals[n.id]), mode="eval").body)
+                    return n
+            node = Sub().visit(node)
+        return lin.lin_of(node, env)
+    a = list(call.args)
+    if len(a) == 1:
+        return lin.Lin(), resolve(a[0]), lin.Lin(const=1)
+    if len(a) == 2:
+        return resolve(a[0]), resolve(a[1]), lin.Lin(const=1)
+    return resolve(a[0]), resolve(a[1]), resolve(a[2])
+
+
+def r5b_capacity_grid(ctx: Context, rule: str = "C10.R5b") -> None:
+    ctx.rule(rule, "space-time planners: the instants at which capacity constraints are generated cover every instant for "
+                   "which a placement cell exists (same start and step, end not earlier), as linear forms over now / "
+                   "plan-ahead / discretization")
+    for rel, sched in (("schedulers/tetrisched_gurobi_scheduler.py", "TetriSchedGurobiScheduler"),
+                       ("schedulers/tetrisched_cplex_scheduler.py", "TetriSchedCPLEXScheduler")):
+        mod = ctx.repo.mod(rel)
+        init = method(mod.cls("TaskOptimizerVariables"), "__init__")
+        cells = [n for n in ast.walk(init) if isinstance(n, ast.DictComp) and isinstance(parent(n), ast.Assign)
+                 and "_space_time" in norm(parent(n).targets[0])]
+        ctx.floor(rule, f"space-time cell table construction ({rel})", len(cells), 1)
+        tgen = [gq for gq in cells[0].generators if isinstance(gq.target, ast.Name) and gq.target.id in ("t", "time", "start_time")]
+        if not tgen:
+            raise AnalysisError(f"{rel}: time generator of the space-time cell table not recognised")
+        it = tgen[0].iter
+        if isinstance(it, ast.Name):
+            defs = [a for a in ast.walk(init) if isinstance(a, ast.Assign) and isinstance(a.targets[0], ast.Name) and a.targets[0].id == it.id]
+            if len(defs) != 1:
+                raise AnalysisError(f"{rel}: `{it.id}` is not a single-assignment local")
+            it = defs[0].value
+        if not (isinstance(it, ast.Call) and call_name(it) == "range"):
+            raise AnalysisError(f"{rel}: the cell grid is not a range()")
+        v0, v1, vs = _range_args(init, it)
+        cap = None
+        for mname, m in methods(mod.cls(sched)).items():
+            for lp in [n for n in ast.walk(m) if isinstance(n, ast.For) and isinstance(n.iter, ast.Call) and call_name(n.iter) == "range"]:
+                if calls_in(lp, "get_partition_variable"):
+                    cap = (m, lp)
+        if cap is None:
+            ctx.violation(rule, f"{rel}::{sched}|capacity constraints iterate a time grid", loc(mod.cls(sched)),
+                          "no loop over range(...) generates capacity constraints from get_partition_variable")
+            continue
+        m, lp = cap
+        ctx.analysed_function(f"{rel}::{sched}.{m.name}")
+        c0, c1, cs = _range_args(m, lp.iter)
+        key = f"{rel}::{sched}.{m.name}|capacity grid"
+        ctx.check(c0 == v0, rule, key + " starts where the cell grid starts", loc(lp), f"start {c0!r}",
+                  f"capacity constraints start at `{c0!r}` but cells exist from `{v0!r}`")
+        ctx.check(cs == vs, rule, key + " has the cell grid's step", loc(lp), f"step {cs!r}",
+                  f"capacity constraints are generated every `{cs!r}` but cells exist every `{vs!r}`: instants in between are unconstrained")
+        d = c1 - v1
+        ctx.check(d.is_const() and d.const >= 0, rule, key + " ends no earlier than the cell grid", loc(lp), f"end {c1!r}",
+                  f"capacity constraints stop at `{c1!r}` (exclusive) but placement cells exist up to `{v1!r}` (exclusive): the "
+                  "last planned instant(s) carry no capacity constraint, so any number of tasks can be stacked there")
 
 
 def r6_indicator_pairs(ctx: Context, rule: str = "C10.R6", gap_rule: Optional[str] = None) -> None:
@@ -755,9 +861,10 @@ def _complementary(s0: str, r0: lin.Lin, s1: str, r1: lin.Lin) -> str:
 
 
 def run(ctx: Context) -> None:
-    r1_side_effect_free(ctx)
-    r2_one_decision(ctx)
-    r3_well_formed(ctx)
-    r4_time_lower_bounds(ctx)
-    r5_capacity(ctx)
-    r6_indicator_pairs(ctx)
+    ctx.isolate(r1_side_effect_free)
+    ctx.isolate(r2_one_decision)
+    ctx.isolate(r3_well_formed)
+    ctx.isolate(r4_time_lower_bounds)
+    ctx.isolate(r5_capacity)
+    ctx.isolate(r5b_capacity_grid)
+    ctx.isolate(r6_indicator_pairs)
